@@ -6,12 +6,12 @@ from hypothesis import strategies as st
 
 from ECAgent.Core import Model, SystemNotFoundError
 from vf.engine import Violation, InvalidCase
-from vf.fixtures import RecSystem, RecCollector, check, expect_raises, sized_lists, wone_of
+from vf.fixtures import RecSystem, RecCollector, FalsySystem, check, expect_raises, sized_lists, wone_of
 
 PROPERTY = "C01"
 BUDGET = {"quick": 2400, "thorough": 6000}
 RULE = ("Histories (1-40 ops) of add(id, priority)/remove(id)/step(n) over a pool of 7 system ids with tie-heavy "
-        "integer priorities (incl. collectors with their default priority), interpreted against the real scheduler and "
+        "integer priorities (incl. collectors with their default priority and system objects that are falsy), interpreted against the real scheduler and "
         "a sorted-list model (key = -priority, registration sequence); plus the exhaustive box. Non-trivial: at some "
         "executed timestep >= 3 systems with >= 2 priority levels and >= 1 tie are registered, or an id is removed and "
         "re-registered. Distinct = digest of the operation list.")
@@ -28,7 +28,7 @@ PRIOS = [-1, -3, -2, 0, 1, 2, 3, 10 ** 6, -10 ** 6, BIG, -BIG]
 def _op():
     prio = wone_of(st.sampled_from([-1, 0, 1]), st.sampled_from(PRIOS), st.integers(-4, 4))
     add = st.fixed_dictionaries({"op": st.just("add"), "id": st.integers(0, POOL - 1), "prio": prio,
-                                 "kind": st.sampled_from(["sys", "sys", "sys", "coll", "colldef"])})
+                                 "kind": st.sampled_from(["sys", "sys", "sys", "coll", "colldef", "falsy"])})
     rem = st.fixed_dictionaries({"op": st.just("remove"), "id": st.integers(0, POOL - 1)})
     step = st.fixed_dictionaries({"op": st.just("step"), "n": st.sampled_from([1, 1, 1, 2, 3])})
     return wone_of(add, add, add, rem, step)
@@ -47,7 +47,7 @@ def _bulk_case(draw):
     """a well-populated queue first (distinct ids, tie-heavy priorities), then a random history"""
     n = draw(st.integers(3, POOL))
     prio = wone_of(st.integers(-3, 3), st.sampled_from(PRIOS))
-    ops = [{"op": "add", "id": i, "prio": draw(prio), "kind": draw(st.sampled_from(["sys", "sys", "coll", "colldef"]))}
+    ops = [{"op": "add", "id": i, "prio": draw(prio), "kind": draw(st.sampled_from(["sys", "sys", "coll", "colldef", "falsy"]))}
            for i in draw(st.permutations(list(range(POOL))))[:n]]
     ops.append({"op": "step", "n": 1})
     ops += draw(sized_lists(_op(), 0, 25))
@@ -106,6 +106,8 @@ def run_case(case):
             elif op.get("kind") == "colldef":
                 obj = RecCollector(sid, model, log, token)
                 prio = -1
+            elif op.get("kind") == "falsy":
+                obj = FalsySystem(sid, model, log, token, priority=prio)
             else:
                 obj = RecSystem(sid, model, log, token, priority=prio)
             if i in live:
